@@ -633,6 +633,26 @@ theorem session_then_star_converges (H : Hasher) (net : Net) (acts : List NetAct
 
 end
 
+/-! ## composition with routing (C19): an update that missed an owner -/
+
+/-- **C18 ∘ C19 (anti-entropy closes the gap a stale routing view leaves)**: an update `δ` for key
+    `k` that ANY node of the session holds (`δ ≤` its value — the sender always holds its own
+    write, whoever its router did or did not hand it to, `C19.stale_view_starved_owner_is_new`) is
+    held by EVERY node after any write-free interleaving followed by a fair round of complete
+    pulls; and at every moment before that it is still held by the node that held it
+    (`session_safe`: states only grow). -/
+theorem update_held_by_one_reaches_all {C : Nat → RV → Prop} (hC : ∀ k, ACI RV.merge (C k))
+    (H : Hasher) (net : Net) (acts : List NetAct) (net' : Net)
+    (hi : NetInv C net) (hw : ∀ a ∈ acts, a.isPut = false) (hne : 1 ≤ net.nodes.length)
+    (hch : PullChain H (starPairs net.nodes.length) (net.run H acts) net')
+    (k : Nat) (δ : RV) (hδ : C k δ) (holder : NetNode) (hh : holder ∈ net.nodes)
+    (hle : ole (some δ) (NMap.get holder.st k)) :
+    ∀ nd ∈ net'.nodes, ole (some δ) (NMap.get nd.st k) := by
+  intro nd hnd
+  rw [session_then_star_converges hC H net acts net' hi hw hne hch nd hnd k, joinAt_eq]
+  exact (aci_opt (hC k)).le_trans (oc_some hδ) ((hi.1 holder hh).oc k) (joinAt_oc hC hi.1 k) hle
+    (joinAt_upper hC hi.1 k holder hh)
+
 /-! ## the two-node exchange, hypotheses revisited
 
   `sync_converges_partial` (Props/C18.lean) lists: `Ideal H`, `StreamOK vs` (properties of the hash
